@@ -181,6 +181,10 @@ def observe(programs, hook):
             continue
         step = resp["steps"][0]
         o = {"model": resp["model"], "names": names, "text": text}
+        if "error" in step:
+            stats["refused with an error"] += 1
+            observed[pid] = {"skipped": {"generator_error": step["error"]}}
+            continue
         if "panic" in step:
             stats["panics"] += 1
             o["panic"] = step["panic"]
